@@ -960,6 +960,56 @@ async fn run_probe_v6(
     ))
 }
 
+/// Verification wrappers (cfg(iroh_verif) only).
+#[cfg(all(iroh_verif, not(wasm_browser)))]
+pub(crate) mod verif {
+    use std::time::Duration;
+
+    use iroh_base::RelayUrl;
+    use iroh_dns::dns::DnsResolver;
+    use iroh_relay::RelayMap;
+
+    use super::{Client, Options, Probe, Report};
+
+    /// The report history of a net-report client, driven directly.
+    #[derive(Debug)]
+    pub struct ReportHistory(Client);
+
+    impl ReportHistory {
+        /// A client with an empty history.
+        pub fn new(dns_resolver: DnsResolver, tls_config: rustls::ClientConfig) -> Self {
+            Self(Client::new(
+                dns_resolver,
+                RelayMap::empty(),
+                Options::new(tls_config),
+                Default::default(),
+            ))
+        }
+
+        /// Feeds a report with the given `(relay, probe kind 0 = https / 1 = QAD v4 / 2 = QAD v6,
+        /// latency)` measurements through `add_report_history_and_set_preferred_relay`; returns
+        /// the preferred relay it chose.
+        pub fn add(&mut self, latencies: &[(RelayUrl, u8, Duration)]) -> Option<RelayUrl> {
+            let mut r = Report::default();
+            for (url, kind, lat) in latencies {
+                let probe = match kind {
+                    0 => Probe::Https,
+                    1 => Probe::QadIpv4,
+                    _ => Probe::QadIpv6,
+                };
+                r.relay_latency.update_relay(url.clone(), *lat, probe);
+            }
+            self.0.add_report_history_and_set_preferred_relay(&mut r);
+            r.preferred_relay
+        }
+
+        /// Number of reports kept in the history.
+        pub fn history_len(&self) -> usize {
+            self.0.reports.prev.len()
+        }
+    }
+}
+
 #[cfg(test)]
 mod test_utils {
     //! Creates a relay server against which to perform tests
